@@ -21,7 +21,7 @@ out = {"at": time.strftime("%F %T"), "repo_head": subprocess.check_output("git -
 if not os.path.exists(WT): sh("git -C /repo worktree add --detach %s HEAD" % WT)
 reset()
 lines = [l for l in open(os.path.join(d, "demo", "RUN.txt")).read().replace("\\\n", " ").splitlines() if l.strip() and not l.strip().startswith("#")]
-lines = [re.sub(r"/tmp/mut[234]?-C\d+-out/m\d+(/demo)?|<this dir>", lambda m: d + "/demo" if (m.group(0) == "<this dir>" or m.group(1)) else d, l) for l in lines if not re.match(r"\s*(git apply|cd /tmp/mut|git -C)", l)]
+lines = [re.sub(r"/tmp/mut\d*-C\d+-out/m\d+(/demo)?|<this dir>", lambda m: d + "/demo" if (m.group(0) == "<this dir>" or m.group(1)) else d, l) for l in lines if not re.match(r"\s*(git apply|cd /tmp/mut|git -C)", l)]
 run = "set -e; " + "; ".join(lines)
 def put_demo():
     if any(l.strip().startswith("cp ") for l in lines):
